@@ -35,9 +35,13 @@ class Walker:
     """Evaluates expressions exactly on the decimal values and tracks whether binary float arithmetic would take part
     (mirrors Model.v `arith`/`vdivk`/`vmax`)."""
 
-    def __init__(self):
+    def __init__(self, played_only=False):
         self.inexact = False
         self.dropped_atomic = False     # an atomic template none of whose channels is played, with a positive duration
+        self.played_only = played_only  # an atomic template none of whose channels is played counts as 0 (what the code
+                                        # plays under finding C04-all-channels-dropped)
+        self.par_depth = 0              # inside how many parallel compositions (multi / arith)
+        self.zero_func_parallel = False  # a FunctionPT of duration 0 as a part of a parallel composition
 
     def ev(self, x, env):
         """-> (tag, q)   tag in int/time/float/inexact"""
@@ -105,12 +109,16 @@ class Walker:
             d = self.den(t, env, f, atomic=True)
             if d > 0 and not self.kept(t, f):
                 self.dropped_atomic = True
+                if self.played_only:
+                    return F(0)
             return d
         k = t['t']
         if k in ('const', 'func'):
             d = self.q(t['d'], env)
             if d < 0:
                 raise Undefined('neg_duration')
+            if k == 'func' and d == 0 and self.par_depth > 0:
+                self.zero_func_parallel = True
             return d
         if k in ('table', 'point'):
             chans = list(t['chans'].values()) if k == 'table' else [t['times']]
@@ -149,7 +157,11 @@ class Walker:
                 env2[name] = (tag, v)
             return self.den(t['body'], env2, compose_cm(f, t.get('cm')), atomic)
         if k == 'multi':
-            ds = [self.den(c, env, f, True) for c in t['subs']]
+            self.par_depth += 1
+            try:
+                ds = [self.den(c, env, f, True) for c in t['subs']]
+            finally:
+                self.par_depth -= 1
             played = [self.kept(c, f) for c in t['subs']]
             if t.get('declared') is not None:
                 ds = ds + [self.q(t['declared'], env)]
@@ -158,7 +170,11 @@ class Walker:
                 raise Undefined(unequal_class(ds, played))
             return ds[0]
         if k == 'arith':
-            dl, dr = self.den(t['lhs'], env, f, True), self.den(t['rhs'], env, f, True)
+            self.par_depth += 1
+            try:
+                dl, dr = self.den(t['lhs'], env, f, True), self.den(t['rhs'], env, f, True)
+            finally:
+                self.par_depth -= 1
             if dl == dr or dr == 0:
                 return dl
             if dl == 0:
@@ -197,16 +213,17 @@ def root_tpl(case):
     return t
 
 
-def spec(case):
-    """-> ('ok', Fraction, inexact, dropped_atomic) | ('undef', reason, inexact)"""
+def spec(case, played_only=False):
+    """-> ('ok', Fraction, inexact, dropped_atomic, zero_func_parallel) | ('undef', reason, inexact)
+    played_only: atomic templates none of whose channels is played count as 0"""
     env = {}
     for name, p in case['params'].items():
         tag, tv, _ = param_value(p)
         env[name] = (tag, tv)
-    w = Walker()
+    w = Walker(played_only)
     try:
         d = w.den(root_tpl(case), env)
-        return ('ok', d, w.inexact, w.dropped_atomic)
+        return ('ok', d, w.inexact, w.dropped_atomic, w.zero_func_parallel)
     except Undefined as u:
         return ('undef', u.reason, w.inexact)
 
